@@ -335,7 +335,7 @@ PROPS["C13"] = {
             "EVERY position of the underlying write calls, of the seek calls and of the flush calls (every third write fault as 'short "
             "write then fail'); each failed API call is retried up to 2x. Oracles: the API call inside which the underlying call failed "
             "returns Err; no panic; whenever Stream::flush returns Ok a fresh handle reads back every byte accepted by earlier write "
-            "calls on that handle - also after a failed flush. One workload per shard in quick. evaluations = faulty runs; "
+            "calls on that handle, and so does the reopened byte image - also after a failed flush. One workload per shard in quick (two script families alternate over the shards), six in thorough. evaluations = faulty runs; "
             "distinct_nontrivial = distinct (workload, kind, position); exhaustive = all positions of all three kinds visited",
     "assumptions": COMMON_ASSUMPTIONS + ["errors swallowed by Stream::drop are outside the property (handles are flushed explicitly, and leaked rather than dropped if that keeps failing)",
                                          "after a failed structural call (create/remove/set_len) the affected content is no longer compared; only error reporting and no-panic are judged"],
@@ -344,8 +344,8 @@ PROPS["C13"] = {
     "quick": {"budget_s": 45},
     "thorough": {"budget_s": 400},
     "floors": {
-        "quick": {"exhaustive_workloads": 16, "positions.write": 8000, "positions.seek": 8000, "positions.flush": 100, "ok_flush_readbacks": 50000, "ok_flush_after_failed_flush_readbacks": 5000},
-        "thorough": {"exhaustive_workloads": 60},
+        "quick": {"exhaustive_workloads": 16, "positions.write": 8000, "positions.seek": 8000, "positions.flush": 100, "ok_flush_readbacks": 50000, "ok_flush_after_failed_flush_readbacks": 5000, "ok_flush_reopen_readbacks": 50000},
+        "thorough": {"exhaustive_workloads": 96},
     },
 }
 
